@@ -48,7 +48,9 @@ RULE = (
     "gresize = every ordered pair of graphs on 2..4 vertices, one bond list edited in place a -> b -> a; derived = "
     "every pattern with L <= 3 over 6 letters (path bonds): every boolean-mask / slice / index-array selection, copy, "
     "stack model, stack slice, iterator piece and the concatenation with itself through all views and molecule "
-    "functions. No case is generated twice."
+    "functions. third audit: args = every pattern with L <= 3 over 6 letters: an index operand with more "
+    "entries than atoms, explicit vs defaulted axis, operands of another length than the structure (outcome "
+    "unspecified; arguments unchanged and the next call right). No case is generated twice."
 )
 ASSUMPTIONS = [
     "reducing functions (np.sum, np.mean, len, ...) are trusted; the oracle applies the same function to the "
@@ -135,6 +137,9 @@ def bounds(tier):
             "gresize": "all ordered pairs of graphs on 2, 3, 4 vertices (4 + 64 + 4096)",
             "derived": "L <= 3 over 6 letters; 2^n masks, 4 slices, 2 index arrays, copy, 3 stack-derived, iterator "
                        "pieces, arr + arr",
+            "args": "L <= 3 over 6 letters: index operand of 5n+2 entries, axis omitted / 0 / -2 with a function whose "
+                    "own default differs, data and spread input longer / shorter than the structure (unspecified "
+                    "outcome, arguments unchanged, next call right)",
         },
     }
 
@@ -1358,7 +1363,7 @@ AWK_PALETTES = [
     {"chain": ("", " "), "res": (2**31 - 1, 2**31, -(2**31) - 1), "ins": ("A", "a"), "name": ("", "X")},
 ]
 ALL_PALETTES = PALETTES + AWK_PALETTES
-DIM2_KINDS = ("ident", "allpal", "alltypes", "resize", "gresize", "derived")
+DIM2_KINDS = ("ident", "allpal", "alltypes", "resize", "gresize", "derived", "args")
 RESIZE_LETTERS = [0, 8, 12, 20]  # chain{a,b} x res_id{base, lower}
 
 
@@ -1577,6 +1582,7 @@ def dim2_shards():
         out.append({"kind": "gresize", "part": k, "parts": 4})
     for k in range(2):
         out.append({"kind": "derived", "part": k, "parts": 2})
+    out.append({"kind": "args"})
     return out
 
 
@@ -1611,6 +1617,10 @@ def dim2_cases(shard):
                     idx += 1
                     if idx % shard["parts"] == shard["part"]:
                         yield {"kind": "gresize", "v": v, "a": a, "b": b}
+    elif k == "args":
+        for L in (0, 1, 2, 3):
+            for digs in itertools.product(SUB["chain_res"], repeat=L):
+                yield {"kind": "args", "digs": list(digs)}
     elif k == "derived":
         idx = 0
         for L in (0, 1, 2, 3):
@@ -1637,10 +1647,91 @@ def run_dim2_case(ctx, case):
     if k == "gresize":
         exp = check_gresize(ctx, case)
         return tuple(exp), case["a"] != case["b"]
+    if k == "args":
+        rs, cs = check_args(ctx, case)
+        return (tuple(rs), tuple(cs)), len(case["digs"]) >= 2
     if k == "derived":
         rs, cs = check_derived(ctx, case)
         return (tuple(rs), tuple(cs)), len(case["digs"]) >= 2
     raise ValueError(case)
+
+
+# ---------------------------------------------------------------------------
+# third dimension audit: operands of another size, explicit vs default axis, unspecified operand sizes
+# ---------------------------------------------------------------------------
+def _sum_axis(seg, axis=None):
+    return np.sum(seg, axis=axis)
+
+
+def _join(seg):
+    return "".join(seg.tolist())
+
+
+def _int_then_float(seg):
+    return int(seg[0]) if seg[0] == 1 else float(seg.sum()) / 4
+
+
+def check_args(ctx, case):
+    global _F
+    if _F is None:
+        _F = _funcs()
+    from biotite.structure import AtomArray
+
+    rows = rows_of(case["digs"], FLAV_PAL)
+    n = len(rows)
+    tags = _tags(n)
+    arr = fill_atoms(AtomArray(n), rows)
+    rs, cs = model_starts(rows)
+    two = np.array([[INTS[i], -i] for i in range(n)], dtype=np.int64).reshape(n, 2)
+    for kind, starts in (("residue", rs), ("chain", cs)):
+        F = _F[kind]
+        nseg = len(starts)
+        seg_of = model_seg_of(starts, n)
+        mem = [[i for i in range(n) if seg_of[i] == k] for k in range(nseg)]
+        fn = "get_%s_" % kind
+        # F: an index operand (much) larger than the structure it refers to
+        ixl = [(7 * j + 3) % n for j in range(5 * n + 2)] if n else []
+        ix = np.array(ixl, dtype=np.int64)
+        expect(ctx, case, fn + "masks", "more_indices_than_atoms",
+               ((len(ixl), n), [[seg_of[j] == seg_of[i] for j in range(n)] for i in ixl]),
+               lambda: _bool_only(F["masks"](arr, ix)))
+        expect(ctx, case, fn + "starts_for", "more_indices_than_atoms", ((len(ixl),), [starts[seg_of[i]] for i in ixl]),
+               lambda: F["starts_for"](arr, ix))
+        expect(ctx, case, fn + "positions", "more_indices_than_atoms", ((len(ixl),), [seg_of[i] for i in ixl]),
+               lambda: F["positions"](arr, ix))
+        if not n:
+            continue
+        # H: axis given explicitly (0 and its negative spelling) vs left to the function's own default
+        ap = "apply_%s_wise" % kind
+        tot = [sum(INTS[i] - i for i in m) for m in mem]
+        col = [[sum(INTS[i] for i in m), sum(-i for i in m)] for m in mem]
+        expect(ctx, case, ap, "axis_omitted_function_default", ((nseg,), tot), lambda: F["apply"](arr, two, _sum_axis))
+        expect(ctx, case, ap, "axis_explicit_0", ((nseg, 2), col), lambda: F["apply"](arr, two, _sum_axis, axis=0))
+        expect(ctx, case, ap, "axis_explicit_minus_2", ((nseg, 2), col), lambda: F["apply"](arr, two, _sum_axis, axis=-2))
+        expect(ctx, case, ap, "axis_explicit_0_numpy_sum", ((nseg, 2), col), lambda: F["apply"](arr, two, np.sum, axis=0))
+        # F: data / input of another length than the structure, functions breaking the "same dtype" contract:
+        # outcome unspecified, but nothing may be modified and the next regular call must be right
+        ints = np.array(INTS[:n], dtype=np.int64)
+        strs = np.array(STRS[:n], dtype="U3")
+        longer = np.arange(n + 2, dtype=np.int64)
+        shorter = np.arange(max(n - 1, 0), dtype=np.int64)
+        sp_long = list(range(nseg + 1))
+        sp_short = list(range(nseg - 1))
+        for thunk in (lambda: F["apply"](arr, longer, np.sum), lambda: F["apply"](arr, shorter, np.sum),
+                      lambda: F["spread"](arr, sp_long), lambda: F["spread"](arr, sp_short),
+                      lambda: F["apply"](arr, strs, _join), lambda: F["apply"](arr, ints, _int_then_float)):
+            ctx.count("unspecified")
+            try:
+                thunk()
+            except CaseTimeout:
+                raise
+            except Exception:  # noqa: BLE001
+                pass
+        if longer.tolist() != list(range(n + 2)) or shorter.tolist() != list(range(max(n - 1, 0))) \
+                or sp_long != list(range(nseg + 1)) or strs.tolist() != STRS[:n] or ints.tolist() != INTS[:n]:
+            ctx.violation(ap + "|argument_mutated|operand_of_other_size", "an argument was modified", case, None, None)
+    check_views(ctx, case, arr, rows, "after_operands_of_other_size", tags)
+    return rs, cs
 
 
 # ---------------------------------------------------------------------------
